@@ -691,7 +691,13 @@ def install(I: Interp, fs: dict):
     # ---------------- misc -------------------------------------------------------------------------------
     def path_exists(I, v, a, k, n):
         p = v.attrs["p"]
-        return isinstance(p, str) and p in fs
+        if not isinstance(p, str):
+            # the text of a document used as a file name: the OS refuses a name component longer than 255 bytes with
+            # OSError(ENAMETOOLONG), which Path.exists() does not swallow; a short text is simply "no such file"
+            if I.choose(2, "document text longer than a file name may be") == 0:
+                raise I.fault("OSError", n, "[Errno 36] File name too long")
+            return False
+        return p in fs
     E["pathlib.Path"] = lambda I, a, k, n: Obj(kind="Path", attrs={"p": a[0]})
     M[("Path", "exists")] = path_exists
     M[("Path", "__str__")] = lambda I, v, a, k, n: v.attrs["p"]
